@@ -469,7 +469,7 @@ def gen_ops(ctx: Ctx, model, label: str, size: str, crashes: list) -> list[dict]
         args = {"short": [rng.choice(xts)] if xts else [], "full": [rng.choice(full)] if full else [], "none": [],
                 "multi": rng.sample(xts, min(3, len(xts)))}[kind]
         below = rng.choice(withkids) if withkids and rng.random() < 0.5 else None
-        ops.append({"k": "search", "args": args, "below": below, "deep": rng.random() < 0.3})
+        ops.append({"k": "search", "args": args, "below": below, "deep": rng.random() < (0.3 if not big or ctx.thorough else 0.15)})
     uu = [o.uuid for o in objs if getattr(o, "uuid", None) and type(o).__name__ != "Diagram"]
     for u in rng.sample(uu, min(len(uu), ctx.pick(8, 120) if not big else ctx.pick(5, 150))):
         ops.append({"k": "findrefs", "u": u})
@@ -503,14 +503,17 @@ def gen_ops(ctx: Ctx, model, label: str, size: str, crashes: list) -> list[dict]
         light = [a for a in dnames if not a.startswith("as_") and a not in ("save", "render", "invalidate_cache")]
         heavy = [a for a in dnames if a.startswith("as_")]
         for a in light:
-            ops.append({"k": "dg.attr", "d": d, "a": a, "deep": True})
+            # dir() of a node list evaluates every attribute of every member: sampled on the big models
+            deep = True if (ctx.thorough or not big or a not in ("nodes", "semantic_nodes")) else rng.random() < 0.2
+            ops.append({"k": "dg.attr", "d": d, "a": a, "deep": deep})
         if ctx.thorough:
             sel_f, sel_a, extra = fmts, heavy, True
-        else:
-            p = 0.5 if not big else 0.03
-            sel_f = [f for f in fmts if rng.random() < p]
-            sel_a = [a for a in heavy if rng.random() < p / 2]
-            extra = rng.random() < p
+        elif not big:
+            sel_f = [f for f in fmts if rng.random() < 0.5]
+            sel_a = [a for a in heavy if rng.random() < 0.25]
+            extra = rng.random() < 0.5
+        else:  # quick, big model: a fixed small number of conversions (see below), none here
+            sel_f, sel_a, extra = [], [], False
         for f in sel_f:
             ops.append({"k": "dg.render", "d": d, "fmt": f, "pretty": rng.random() < 0.3})
         for a in sel_a:
@@ -522,6 +525,16 @@ def gen_ops(ctx: Ctx, model, label: str, size: str, crashes: list) -> list[dict]
         if rng.random() < 0.5:
             ops.append({"k": "dg.invalidate", "d": d})
             ops.append({"k": "dg.render", "d": d, "fmt": None})
+
+    if big and not ctx.thorough and dgs:
+        # every diagram is parsed above (render(None)); the format converters never see the model, so a
+        # fixed handful of conversions keeps the quick tier's time stable
+        for _ in range(4):
+            ops.append({"k": "dg.render", "d": rng.choice(dgs), "fmt": rng.choice(fmts), "pretty": rng.random() < 0.3})
+        for _ in range(2):
+            ops.append({"k": "dg.attr", "d": rng.choice(dgs), "a": "as_" + rng.choice(fmts)})
+        d = rng.choice(dgs)
+        ops += [{"k": "dg.html", "d": d}, {"k": "dg.mime", "d": d}, {"k": "dg.save", "d": d, "fmt": "svg"}]
 
     # repetition + order
     reps = [dict(rng.choice(ops)) for _ in range(len(ops) // 10)] if ops else []
@@ -731,11 +744,25 @@ def run_pvmt(ctx: Ctx, out: Outcome, label: str, model) -> None:
     rng = ctx.rng
     errors: collections.Counter = collections.Counter()
     ops = pvmt_ops(model, rng, ctx.pick(40, 400))
+    def dup_groups() -> set:
+        """(owner id, group name) pairs that occur more than once among ownedPropertyValueGroups."""
+        seen: collections.Counter = collections.Counter()
+        for f in model._loader.trees.values():
+            for g in f.root.iter("ownedPropertyValueGroups"):
+                par = g.getparent()
+                seen[(_eid(par) if par is not None else "", g.get("name"))] += 1
+        return {k for k, n in seen.items() if n > 1}
+
     s0 = fast_snap(model)
     roots0 = copy_roots(model)
+    dups0 = dup_groups()
     for op in ops:
         pvmt_exec(model, op, errors)
     s1 = fast_snap(model)
+    for owner, gname in sorted(dup_groups() - dups0):
+        out.find("pvmt|applied-twice",
+                 f"[{label}] PVMT access applied group {gname!r} more than once to element {owner}",
+                 {"kind": "pvmt", "model": label, "owner": owner, "group": gname})
     diffs = []
     if s1 != s0:
         diffs = model_diff(roots0, model)
